@@ -1,6 +1,8 @@
 import SJ.Drv.Mach
 import SJ.Drv.C03
 import SJ.Model.IoFault
+import SJ.Model.Write
+import SJ.Model.WriteTrace
 import SJ.Spec.Utf8
 namespace SJ.Drv.C13
 open SJ SJ.Drv SJ.Drv.Mach SJ.Model.Machine SJ.Model.IoFault
@@ -72,32 +74,101 @@ def sfault : Handler := fun args impl =>
     { model := impl, specs := if ok then [] else [s!"C13 stream over a failing reader: expected values, one terminal error, then None forever; got {impl}"] }
   | _ => bad "arity"
 
-/-- `wfault <cfg> <c|p> <kind> <m> <prog> <hex full output> => <result>|<accepted hex>|<buffers>` -/
+/-! ## writer side: the script policies of `harness/src/c13.rs` against `Model.Write` -/
+section Writer
+open SJ.Model.Write SJ.Model.WriteTrace
+
+/-- kinds by name, in the order of `WKINDS` in the harness (`WriteZero` is `write_all`'s own kind as well) -/
+def wkindNames : List String := ["BrokenPipe", "TimedOut", "UnexpectedEof", "Other", "InvalidData"]
+
+def kindOfName (n : String) : Option Kind :=
+  if n == "WriteZero" then some .writeZero
+  else if n == "Interrupted" then some .interrupted
+  else (wkindNames.idxOf? n).map .other
+
+def kindName : Kind → String
+  | .writeZero => "WriteZero"
+  | .interrupted => "Interrupted"
+  | .other t => wkindNames.getD t "?"
+
+/-- `s<n>` | `z` | `i` | `e<Kind>` -/
+def respOf (t : String) : Option Resp :=
+  match t.toList with
+  | 's' :: ds => (String.ofList ds).toNat?.map .short
+  | ['z'] => some .zero
+  | ['i'] => some .intr
+  | 'e' :: ks => (kindOfName (String.ofList ks)).map .fail
+  | _ => none
+
+def scriptOf (t : String) : Option (List Resp) :=
+  if t == "-" then some [] else (t.splitOn ".").mapM respOf
+
+/-- is this answer the end of `write_all` (whatever the buffer: scripts keep the contract `n ≤ buf.len()`)? -/
+def respFatal : Resp → Bool
+  | .zero => true
+  | .fail k => k != .interrupted
+  | _ => false
+
+/-- the kind `write_all` reports for a fatal answer -/
+def respFatalKind : Resp → String
+  | .zero => "WriteZero"
+  | .fail k => kindName k
+  | _ => "?"
+
+/-- the property on one observation, from the script alone (no model): the answers consumed are the first `calls`
+    items of `script ++ tail…`; none but the last may be fatal; if the last is, the result is `Io` with its kind; if none
+    is, the result is the fault-free one (`clean`: `OK`, or the serializer's own error); the result is the fault-free one
+    iff everything was accepted; what was accepted is a prefix of the fault-free output -/
+def judgeWrite (script : List Resp) (tail : Resp) (full acc : Bytes) (clean res : String) (calls : Nat) : List String :=
+  let consumed := (List.range calls).map fun j => (script[j]?).getD tail
+  let s1 := if acc.isPrefixOf full then [] else ["C13 the bytes the writer accepted are not a prefix of the fault-free output"]
+  let s2 := if consumed.dropLast.any respFatal then ["C13 a write call was made after the writer had failed"] else []
+  let s3 := match consumed.getLast? with
+    | some r =>
+      if respFatal r then
+        (if res == s!"IO:{respFatalKind r}" then [] else [s!"C13 the writer failed with {respFatalKind r} but serialisation returned {res}"])
+      else if res == clean || consumed.dropLast.any respFatal then [] else [s!"C13 no write call failed last, yet serialisation returned {res} (fault-free: {clean})"]
+    | none => if res == clean then [] else [s!"C13 no write call was made, yet serialisation returned {res} (fault-free: {clean})"]
+  let s4 := if (res == clean) == (acc == full) then []
+            else [s!"C13 serialisation returned {res} (fault-free: {clean}) with {acc.length} of {full.length} bytes accepted"]
+  s1 ++ s2 ++ s3 ++ s4
+
+/-- `wfault <cfg> <c|p> <script> <tail> <prog> <hex fault-free output> <fault-free result> =>
+    <result>|<accepted hex>|<write calls>|<buffers>|<std>` -/
 def wfault : Handler := fun args impl =>
   match args with
-  | [_, f, kind, ms, pe, fullh] =>
-    match ms.toNat?, C03.decodeProg pe, bytesOfHex fullh with
-    | some m, some (p, tb), some full =>
+  | [_, f, scriptS, tailS, pe, fullh, clean] =>
+    match scriptOf scriptS, respOf tailS, C03.decodeProg pe, bytesOfHex fullh with
+    | some script, some tail, some (p, tb), some full =>
       let ext := C03.extOf tb
-      let r := if f == "p" then Model.Ser.serPretty ext [0x20, 0x20] p else Model.Ser.serCompact ext p
-      let model := match r with
-        | .ok bufs =>
-          let (acc, failed) := writeFault bufs m
-          (if failed then s!"IO:{kind}" else "OK") ++ "|" ++ hexField acc
-        | .error _ => "ERR"
+      let fmt : Model.Ser.Fmt := if f == "p" then .pretty [0x20, 0x20] else .compact
+      -- one `write_all` makes at most (answers left in the script) + (bytes of the buffer) + 1 calls, unless the tail is `i`
+      let fuel := script.length + full.length + 2
+      -- `toWriterT` is `toWriter` on programs that serialise (`c13_trace_agrees`)
+      let (w, r) := toWriterT fuel ext fmt p (Writer.script script tail)
+      let rs := match r with
+        | .ok => "OK" | .io e => s!"IO:{kindName e.kind}" | .ser e => "ERR:" ++ C03.errName e | .hang => "HANG" | .panic => "PANIC"
+      let hs := if w.handed.isEmpty then "-" else ".".intercalate (w.handed.map hexField)
+      let model := s!"{rs}|{hexField w.accepted}|{w.calls}|{hs}|="
+      -- the fault-free run of the model must be the fault-free run of the crate (the arguments of the case)
+      let (w0, r0) := toWriterT 1 ext fmt p Writer.vec
+      let m0 := if w0.accepted == full && (match r0 with | .ok => "OK" | .ser e => "ERR:" ++ C03.errName e | _ => "?") == clean then ""
+                else s!"[fault-free run of the model: {hexField w0.accepted}]"
       match impl.splitOn "|" with
-      | [res, acch, bufsS] =>
-        let acc := (bytesOfHex acch).getD []
-        let bufs := (bufsS.splitOn ".").filterMap bytesOfHex
-        let s1 := if acc.isPrefixOf full then [] else ["C13 the bytes the writer accepted are not a prefix of the fault-free output"]
-        let s2 := if (m < full.length) == (res == s!"IO:{kind}") && (m < full.length || res == "OK") then []
-                  else [s!"C13 writer failing after {m} of {full.length} bytes: result {res}"]
-        let s3 := if m < full.length && acc.length != m then [s!"C13 writer accepted {acc.length} bytes, expected {m}"] else []
-        let s4 := if bufs.all Spec.Utf8.validUtf8 then [] else ["C13 a buffer handed to the writer is not valid UTF-8 on its own"]
-        { model := model ++ "|" ++ bufsS, specs := s1 ++ s2 ++ s3 ++ s4 }
+      | [res, acch, callsS, bufsS, std] =>
+        match bytesOfHex acch, callsS.toNat? with
+        | some acc, some calls =>
+          let bufs := if bufsS == "-" then [] else (bufsS.splitOn ".").filterMap bytesOfHex
+          let s0 := judgeWrite script tail full acc clean res calls
+          let s5 := if bufs.all Spec.Utf8.validUtf8 then [] else ["C13 a buffer handed to the writer is not valid UTF-8 on its own"]
+          let s6 := if std == "=" then [] else [s!"C13 std's own write_all (a writer that only implements write) behaves differently: {std}"]
+          { model := model ++ m0, specs := s0 ++ s5 ++ s6 }
+        | _, _ => bad "obs fields"
       | _ => bad "obs"
-    | _, _, _ => bad "decode"
+    | _, _, _, _ => bad "decode"
   | _ => bad "arity"
+
+end Writer
 
 /-- `ioconv <cfg> <kind> <k> <hex doc> => <cat:iokind>|…` — `io::Error::from(serde_json::Error)`: the kind after conversion is the
     injected kind for an Io error and the table `Gen.intoIoKind` (regenerated from error.rs) for the other categories -/
